@@ -124,7 +124,7 @@ func (l *callLog) sorted() []string {
 }
 
 func c11Case(r *evid.Run, tier string, idx int, g *rng.R) {
-	o := adoc.GenOpts{MinNodes: 8, MaxNodes: 45, NS: 2, Misc: g.P(40), Weird: g.P(20), NumericText: g.P(50)}
+	o := adoc.GenOpts{MinNodes: 8, MaxNodes: 45, NS: 2, Misc: g.P(40), Weird: g.P(35), NumericText: g.P(50)}
 	d := adoc.Generate(g, o)
 	w, err := newWorld(d)
 	if err != nil {
@@ -135,8 +135,13 @@ func c11Case(r *evid.Run, tier string, idx int, g *rng.R) {
 	total := len(d.All)
 	pool := []string{"p", "q", "r", "zz", "al", "ns1", "child", "div"}
 	// 'div' and friends as prefixes are a known grammar deviation (C08): keep to safe ones here
-	pool = pool[:6]
+	pool = append(pool[:6], "self", "text", "child", "node")
 	env1 := genEnv(g, pool)
+	if _, ok := env1.ns["pp"]; !ok { // always one ordinary prefix for variable / function names
+		env1.ns["pp"] = c11URIs[g.Intn(len(c11URIs))]
+		env1.rev[env1.ns["pp"]] = append(env1.rev[env1.ns["pp"]], "pp")
+		sort.Strings(env1.rev[env1.ns["pp"]])
+	}
 	env2 := genEnv(g, []string{"q", "p", "k1", "k2", "r", "w"})
 	useEnv := func(e *bindEnv) {
 		w.env.NS = map[string]string{"xml": adoc.XMLNS}
@@ -214,7 +219,15 @@ func c11Case(r *evid.Run, tier string, idx int, g *rng.R) {
 	for i := range fwd {
 		rev[len(fwd)-1-i] = fwd[i]
 	}
-	nsP := prefixes[g.Intn(len(prefixes))]
+	// prefix used for variable and function names: not a reserved word (functions named with a
+	// reserved-word prefix are the open finding grammar-reserved-names of C08)
+	var plain []string
+	for _, p := range prefixes {
+		if p != "self" && p != "text" && p != "child" && p != "node" {
+			plain = append(plain, p)
+		}
+	}
+	nsP := plain[g.Intn(len(plain))]
 	type vb struct {
 		prefix, local string
 		model         refeval.Value
